@@ -873,3 +873,10 @@ package compiler
 //@   assumes registry: visitor != nil && visitor.newObjects != nil
 //@   modifies nothing
 //@   ensures  result == visitor.newObjects.records.has(refKey(ref.ReferredPkg, ref.ReferredType))
+//
+// Passes.Concat: the passes of the receiver followed by the passes of the argument, in a new list.
+//@ func Passes.Concat
+//@   property C15
+//@   modifies nothing
+//@   ensures  fresh: fresh(result)
+//@   ensures  concat: len(result) == len(passes) + len(other) && (forall i: int :: 0 <= i && i < len(passes) ==> result[i] == passes[i]) && (forall i: int :: 0 <= i && i < len(other) ==> result[len(passes) + i] == other[i])
